@@ -58,6 +58,21 @@ def configure_process():
         logging.basicConfig(level=logging.DEBUG,
                             handlers=[logging.NullHandler()], force=True)
         logging.getLogger().setLevel(logging.DEBUG)
+    if os.environ.get('VMON_DECIMAL_PREC'):
+        import decimal
+        n = int(os.environ['VMON_DECIMAL_PREC'])
+        decimal.getcontext().prec = n
+        decimal.DefaultContext.prec = n      # what new threads start from
+    if os.environ.get('VMON_NUMPY_PRINT'):
+        import numpy
+        numpy.set_printoptions(precision=int(os.environ['VMON_NUMPY_PRINT']),
+                               suppress=True, threshold=5)
+
+
+def closed_stdout():
+    f = open(os.devnull, 'w')
+    f.close()
+    return f
 
 
 def import_probe():
@@ -106,6 +121,8 @@ def configuration_text():
         bits.append('warnings as errors')
     if os.environ.get('VMON_LOGGING') == 'debug':
         bits.append('logging at DEBUG')
+    if os.environ.get('VMON_STDOUT') == 'closed':
+        bits.append('decimal precision 3, stdout closed')
     return ', '.join(bits) or 'default configuration'
 
 
@@ -148,7 +165,13 @@ def main():
             print('replay: every module of the package imports in this '
                   'configuration (%s)' % configuration_text())
             sys.exit(0)
-        mod.replay(ctx, rec['case'])
+        real_out = sys.stdout
+        if os.environ.get('VMON_STDOUT') == 'closed':
+            sys.stdout = closed_stdout()
+        try:
+            mod.replay(ctx, rec['case'])
+        finally:
+            sys.stdout = real_out
         known = {}
         try:
             with open(os.path.join(ROOT, 'known_findings.json')) as f:
@@ -197,7 +220,8 @@ def main():
     # __str__: noise, not a property; captured and only counted.
     real_stdout = sys.stdout
     cap = CountingSink()
-    sys.stdout = cap
+    sys.stdout = closed_stdout() if os.environ.get('VMON_STDOUT') == \
+        'closed' else cap
     try:
         if shard % 2 == 1 and not getattr(mod, 'NO_TOUR', False):
             # the process has a past: a tour through every other part of
@@ -226,6 +250,9 @@ def main():
     if os.environ.get('VMON_LOGGING') == 'debug':
         res['counters']['evaluations_with_debug_logging_enabled'] = \
             res['counters'].get('evaluations', 0)
+    if os.environ.get('VMON_STDOUT') == 'closed':
+        res['counters']['evaluations_with_stdout_closed_and_decimal_'
+                        'precision_3'] = res['counters'].get('evaluations', 0)
     if not __debug__:
         res['counters']['evaluations_in_an_optimised_interpreter'] = \
             res['counters'].get('evaluations', 0)
